@@ -128,14 +128,7 @@ def recorded_amount(col, gcode, paths, I, rule):
                                    detail={'entry': p.entry, 'decisions': f.decisions()[-6:]})
 
 
-def recorded_amount_c04(col, gcode, paths, I):
-    declare(col)
-    recorded_amount(col, gcode, paths, I, 'C04.R4')
-    # the E words of the generated commands must reach the firmware as the numbers they stand for: plain decimals (C07.R1/R2)
-    from . import rules_c07
-    col.rule('C07.R1', 'C07: every synthesised command is one G/M code followed by distinct single-letter words', floor=4)
-    col.rule('C07.R2', 'C07: every numeric word (the E of G92 E / G1 E in particular) is rendered by an exponent-free formatter', floor=8)
-    rules_c07.path_rules(col, gcode, paths, I, own=False)
+def c01_path_premise(col, gcode, paths, I):
     # what reaches the printer while an episode is open is decided by C01: only the enter script and genuine retractions, never
     # the incoming command (an E word replayed inside a region pushes the whole backlog of suppressed extrusion)
     from . import rules_c01
@@ -149,9 +142,24 @@ def recorded_amount_c04(col, gcode, paths, I):
     rules_c01.path_rules(col, gcode, paths, I, own=False)
 
 
+def recorded_amount_c04(col, gcode, paths, I):
+    declare(col)
+    recorded_amount(col, gcode, paths, I, 'C04.R4')
+    # the E words of the generated commands must reach the firmware as the numbers they stand for: plain decimals (C07.R1/R2)
+    from . import rules_c07
+    col.rule('C07.R1', 'C07: every synthesised command is one G/M code followed by distinct single-letter words', floor=4)
+    col.rule('C07.R2', 'C07: every numeric word (the E of G92 E / G1 E in particular) is rendered by an exponent-free formatter', floor=8)
+    rules_c07.path_rules(col, gcode, paths, I, own=False)
+    c01_path_premise(col, gcode, paths, I)
+
+
 def run(ctx, tier):
     declare(ctx)
-    machine_rule(ctx, tier)
+    try:
+        machine_rule(ctx, tier)
+    except AnalysisError as ex:
+        # the other rules still run: a violation found there is reported, the unfinished machine fails the run only otherwise
+        ctx.deferred_errors.append(str(ex))
     addcommands_rule(ctx)
     from .handlers import run_path_rules
     run_path_rules(ctx, __name__, 'recorded_amount_c04', ['G0', 'G1'], unroll=1)
